@@ -285,3 +285,13 @@ Definition lev_eqb (a b : lev) : bool :=
 Fixpoint levs_eq (a b : list lev) : bool :=
   match a, b with [], [] => true | x :: s, y :: t => lev_eqb x y && levs_eq s t | _, _ => false end.
 Definition chk_modlife (mods : list modspec) (n : nat) (f : fault) (observed : list lev) : bool := levs_eq (run_mods mods n f) observed.
+
+(* ---- analysis report (C18) ---- *)
+From RQ Require Import Model.Analyser.
+Definition chk_report_day (raw_cash raw_tv raw_mv raw_nav raw_units raw_static : Q) (cash tv mv nav units static : Q) : bool :=
+  rounded_ok 4 raw_cash cash && rounded_ok 4 raw_tv tv && rounded_ok 4 raw_mv mv && rounded_ok 6 raw_nav nav &&
+  approx raw_units units && rounded_ok 4 raw_static static.
+Definition chk_total_return (navs : list Q) (total_returns : Q) : bool :=
+  approx (total_return_of navs) total_returns && approx (qsub (compound 1 navs) 1) total_returns.
+Definition chk_benchmark_return (prev : Q) (closes : list Q) (r : Q) : bool :=
+  approx (qsub (prod1 (bench_returns prev closes)) 1) r && approx (qsub (qdiv (lastq prev closes) prev) 1) r.
